@@ -114,6 +114,21 @@ Section Ext.
     orb (nltb X XNaN (Fin lo)) (nltb X (Fin up) XNaN) = false.
   Proof. reflexivity. Qed.
 
+  (* TimePDF.assert_is_valid_for_trial_data accepts a NaN time (both comparisons
+     false); the evaluation is total and such an event is off-time: density 0 *)
+  Theorem nan_time_accepted_and_zero lo up ivs p :
+    tp_time_oor X XNaN (Fin lo) (Fin up) = false /\
+    sig_time_pd X ivs p XNaN = Fin 0 /\ bkg_time_pd X ivs p XNaN = Fin 0.
+  Proof.
+    split; [reflexivity|].
+    assert (H : lt_is_on X ivs XNaN = false).
+    { unfold lt_is_on. induction ivs as [|[l u] r IH]; [reflexivity|].
+      cbn [existsb fst snd]. rewrite IH.
+      assert (nleb X l XNaN = false) as -> by (unfold X; destruct l; reflexivity).
+      reflexivity. }
+    destruct (off_time_zero X ivs p XNaN H) as [A B]. split; [exact A | exact B].
+  Qed.
+
   (* ---------------------------------------------------------------- witnesses: the guards are needed *)
   (* a zero-width box inside the on-time: S = 0 and the on-time event at the box gets +inf *)
   Lemma S_zero_witness :
